@@ -112,6 +112,46 @@ Theorem C18_dollar_optional_before_filters : forall cfg parse_float regex_ok ffu
     end.
 Proof. exact dollar_optional_filt. Qed.
 Print Assumptions C18_dollar_optional_before_filters.
+(* the same when filter functions follow the steps and filters (NoDollarFun.v): `a[?(@.b)].f().g()` returns what `$.a[?(@.b)].f().g()` returns *)
+From JP Require Import FunParse NoDollarFun.
+Theorem C18_dollar_optional_before_functions : forall cfg parse_float regex_ok ffun afun regex_match,
+  (forall f v w, small v -> ffun f v = Some w -> small w) ->
+  (forall f l w, Forall small l -> afun f l = Some w -> small w) ->
+  forall s l f fs doc st, step_ok s = true -> forallb fstep_ok l = true -> forallb (fstep_okp parse_float regex_ok) l = true ->
+  forallb fname_ok (f :: fs) = true -> forallb (fun_known cfg) (f :: fs) = true -> small doc -> ok st ->
+  exists t1 t0,
+    parse_with cfg parse_float regex_ok jsonpath_grammar (fchain_fun_path (FS (RPlain s) :: l) (f :: fs)) = ParseOk t1 /\
+    parse_with cfg parse_float regex_ok jsonpath_grammar (fchain_fun_path0 s l (f :: fs)) = ParseOk t0 /\
+    match fst (eval_run ffun afun regex_match t1 doc st) with
+    | OOk rs => fst (eval_run ffun afun regex_match t0 doc st) = OOk rs
+    | OErr _ => exists e, fst (eval_run ffun afun regex_match t0 doc st) = OErr e
+    | OPanic _ => False
+    end.
+Proof. exact dollar_optional_fun. Qed.
+Print Assumptions C18_dollar_optional_before_functions.
+(* … and when an aggregate function follows them (NoDollarAgg.v): `a[?(@.b)].g().f()` *)
+From JP Require Import AggParse NoDollarAgg.
+Theorem C18_dollar_optional_before_aggregates : forall cfg parse_float regex_ok ffun afun regex_match,
+  (forall f v w, small v -> ffun f v = Some w -> small w) ->
+  (forall f l w, Forall small l -> afun f l = Some w -> small w) ->
+  forall s l g fs doc st, step_ok s = true -> forallb fstep_ok l = true -> forallb (fstep_okp parse_float regex_ok) l = true ->
+  forallb fname_ok (g :: fs) = true -> agg_known cfg g = true -> forallb (fun_known cfg) fs = true -> small doc -> ok st ->
+  exists t1 t0,
+    parse_with cfg parse_float regex_ok jsonpath_grammar (fchain_fun_path (FS (RPlain s) :: l) (g :: fs)) = ParseOk t1 /\
+    parse_with cfg parse_float regex_ok jsonpath_grammar (fchain_fun_path0 s l (g :: fs)) = ParseOk t0 /\
+    match fst (eval_run ffun afun regex_match t1 doc st) with
+    | OOk rs => fst (eval_run ffun afun regex_match t0 doc st) = OOk rs
+    | OErr _ => exists e, fst (eval_run ffun afun regex_match t0 doc st) = OErr e
+    | OPanic _ => False
+    end.
+Proof. exact dollar_optional_agg. Qed.
+Print Assumptions C18_dollar_optional_before_aggregates.
+Example C18_dollar_functions_example :
+  fchain_fun_path0 (SDot [97]) [FE [RPlain (SDot [98])]] [[102]; [103]] = [97; 91; 63; 40; 64; 46; 98; 41; 93; 46; 102; 40; 41; 46; 103; 40; 41] /\
+  fchain_fun_path [FS (RPlain (SDot [97])); FE [RPlain (SDot [98])]] [[102]; [103]] = [36; 46; 97; 91; 63; 40; 64; 46; 98; 41; 93; 46; 102; 40; 41; 46; 103; 40; 41] /\
+  forallb fname_ok [[102]; [103]] = true /\
+  forallb (fun_known {| cfg_filters := ["f"%string; "g"%string]; cfg_aggs := []; cfg_accessor := false |}) [[102]; [103]] = true.
+Proof. repeat split; vm_compute; reflexivity. Qed.
 
 Example C18_dollar_example :
   chain_path0 (SDot [97]) [RPlain (SWild false); RRec (SIdx [48])] = [97; 91; 42; 93; 46; 46; 91; 48; 93] /\
